@@ -28,7 +28,8 @@ def r2_inplace(rep, facts):
         rem = sorted(s for s in names if s in ('remove', 'shift_remove', 'swap_remove', 'remove_entry', 'shift_remove_entry', 'swap_remove_entry', 'shift_remove_full', 'swap_remove_full', 'pop', 'drain', 'retain'))
         occupied = any((x.get('path') or '').endswith('Entry::Occupied') for x in walk(b['body']) if x.get('k') in ('p_tuplestruct', 'p_struct'))
         vacant = any((x.get('path') or '').endswith('Entry::Vacant') for x in walk(b['body']) if x.get('k') in ('p_tuplestruct', 'p_struct'))
-        inplace = 'replace' in names and any(full == 'core::mem::replace' for _, full, _ in segs)
+        # the value of the occupied entry is exchanged where it sits: mem::replace on the slot, or the entry's own insert (which is that)
+        inplace = ('replace' in names and any(full == 'core::mem::replace' for _, full, _ in segs)) or any('OccupiedEntry' in full and seg_ == 'insert' for seg_, full, _ in segs)
         rep.check(R, d + '|in-place', occupied and vacant and inplace and not rem, 'Occupied -> mem::replace(entry.get_mut(), item); Vacant -> insert',
                   f'`{d}` does not replace an occupied entry in place (calls: {sorted(names)[:8]}; removals: {rem}): the key would move or its neighbours shift', facts.loc(b))
     # Array::replace carries decor
